@@ -5,6 +5,7 @@ import HC.Props.C19
 import HC.Proto.H2Window
 import HC.Proto.H2WireInv
 import HC.Extracted.H2Init
+import HC.Props.C07
 /-!
 # C02 — HTTP response delivery fidelity and legal framing (the hypercorn side of it)
 
@@ -633,5 +634,62 @@ theorem prior_knowledge_opens_no_stream : HC.Extracted.H2Init.upgradePath none =
 
 /-- the HTTP/1 side hands over a value (the empty one when there is no HTTP2-Settings header), never `None` -/
 theorem h2c_settings_always_given : HC.Extracted.H2Init.h2cSettingsDefaultEmpty = true := rfl
+
+/-! ### a response that takes longer than `keep_alive_timeout` ("every pace")
+
+The keep-alive time-out is about idle connections; the timed connection model and its invariant are C07's
+(`HC.Conn.Server`, `HC.Props.C07`).  What C02 needs of them: while a response is in progress the idle timer is not armed, so
+however long the application pauses between its messages (or the client takes to read them) that timer cannot close the
+connection under the response - on every carrier, the cleartext prior-knowledge switch included, whose `Updated(idle=True)`
+is the one idle report sent without looking at the streams (its place in `ProtocolWrapper.handle` is extracted). -/
+section Slow
+open HC.Conn
+
+/-- a request on a registered HTTP stream the peer has not abandoned whose response has not ended is what C07 calls busy -/
+theorem response_in_progress_is_busy (s : Conn.St) (i : Nat) (hl : i ∈ s.live) (hk : (s.inst i).kind = Conn.Kind.http)
+    (hc : (s.inst i).closed = false) (he : (s.inst i).respEnded = false) : s.busy = true := by
+  simp only [St.busy, List.any_eq_true]
+  exact ⟨i, hl, by simp [Inst.busy, hk, hc, he]⟩
+
+/-- **a slow response is not cut off by the keep-alive timer**: in every reachable state of the connection model (every
+    configuration: protocol, worker, every `keep_alive_timeout`; every operation sequence: any carrier, any split of the
+    first bytes) in which a response is in progress, the idle timer is not armed, its firing is not enabled, and any
+    amount of time may pass without that changing the state otherwise -/
+theorem slow_response_not_timed_out (cfg : Conn.Cfg) (ops : List Conn.Op) (s : Conn.St) (hr : run (init cfg) ops = some s) (i : Nat)
+    (hl : i ∈ s.live) (hk : (s.inst i).kind = Conn.Kind.http) (hc : (s.inst i).closed = false) (he : (s.inst i).respEnded = false) :
+    s.timer = none ∧ step s .timerFire = none ∧ ∀ d, step s (.tick d) = some { s with now := s.now + d } := by
+  have hb := response_in_progress_is_busy s i hl hk hc he
+  have ht : s.timer = none := by
+    cases h : s.timer with
+    | none => rfl
+    | some dl =>
+      have := HC.Props.C07.timer_armed_implies_not_busy cfg ops s hr (by simp [h])
+      simp [hb] at this
+  refine ⟨ht, ?_, ?_⟩
+  · simp [step, ht]
+  · intro d
+    simp [step, ht]
+
+/-- the cleartext prior-knowledge switch reports the connection idle BEFORE it hands over the bytes that followed the preface
+    (extracted from `ProtocolWrapper.handle`): a request among them - the usual first flight of an HTTP/2 client: preface,
+    SETTINGS and HEADERS in one segment - stops the timer afterwards; reported after them, the report would arm the timer
+    under that request's response (the model's `lateIdle` branch, which the invariant does not survive) -/
+theorem prior_switch_reports_idle_before_the_request : HC.Extracted.ConnGuards.priorIdleBeforeData = true := by decide
+
+/-- non-vacuity: prior knowledge with the request head and the end of the request in the read of the preface, the first part
+    of the response sent, then three time-outs of silence from the application: the hypotheses of `slow_response_not_timed_out`
+    hold (stream 0 registered, not abandoned, its response not ended), the timer is off, nothing is closed; the connection
+    is closed one time-out after the response has ended -/
+example : (run (init { proto := .h2, T := 5000 }) [.read, .h2prior, .head {}, .h2eom 0, .needData, .appRecv 0, .appSend 0 (.start false),
+      .appSend 0 (.body true true), .tick 15000]).map
+    (fun s => (s.live, (s.inst 0).kind == .http, (s.inst 0).closed, (s.inst 0).respEnded)) = some ([0], true, false, false) := by decide
+example : (run (init { proto := .h2, T := 5000 }) [.read, .h2prior, .head {}, .h2eom 0, .needData, .appRecv 0, .appSend 0 (.start false),
+      .appSend 0 (.body true true), .tick 15000]).map
+    (fun s => (s.timer, s.closedByServer, s.now)) = some (none, false, 15000) := by decide
+example : (run (init { proto := .h2, T := 5000 }) [.read, .h2prior, .head {}, .h2eom 0, .needData, .appRecv 0, .appSend 0 (.start false),
+      .appSend 0 (.body true true), .tick 15000, .appSend 0 (.body false true), .resume (.app 0), .appExit 0, .tick 5000, .timerFire]).map
+    (fun s => (s.closeAt, (s.inst 0).respEnded)) = some (some 20000, true) := by decide
+
+end Slow
 
 end HC.Props.C02
